@@ -153,8 +153,9 @@ class H:
             self.smt2.append((v.smt2, v.verdict))
         return ok
 
-    def zero(self, key, x, scale=1.0, hyps=()):
-        """Obligation: every entry of x is identically zero."""
+    def zero(self, key, x, scale=1.0, hyps=(), approx=None):
+        """Obligation: every entry of x is identically zero.  approx=(box constraints, tol): when the exact identity is
+        refuted (code constants such as sqrt(3) are rounded), fall back to |x| <= tol on the box (few variables only)."""
         if self.mode == 'sym':
             allok = True
             items = list(flat_syms(x)) if isinstance(x, np.ndarray) else [((), tosym(x))]
@@ -162,6 +163,10 @@ class H:
                 k = key + (str(list(idx)) if idx != () else '')
                 v = smt.decide_zero(s, self.ex, self.ladder, extra_hyps=[self._e(c) for c in hyps],
                                     want_smt2=len(self.smt2) < 2)
+                if v.verdict == 'sat' and approx is not None:
+                    t1 = v.time
+                    v = smt.decide_within(s, self.ex, [self._e(c) for c in approx[0]], approx[1], self.ladder)
+                    v.time += t1
                 allok &= self._rec(k, 'zero', v, 'unsat')
             return allok
         if hyps and not all(bool(c) for c in hyps):
@@ -180,14 +185,14 @@ class H:
                     bad = True
         return not bad
 
-    def equal(self, key, a, b, scale=None):
+    def equal(self, key, a, b, scale=None, approx=None):
         a_ = np.asarray(a) if not isinstance(a, np.ndarray) else a
         b_ = np.asarray(b) if not isinstance(b, np.ndarray) else b
         if a_.shape != b_.shape:
             return self.concrete(key + ':shape', False, 'shapes %s vs %s' % (a_.shape, b_.shape))
         if self.mode == 'float' and scale is None:
             scale = max(1.0, float(np.max(np.abs(np.asarray(b_, dtype=float)))) if b_.size else 1.0)
-        return self.zero(key, a_ - b_, scale=scale or 1.0)
+        return self.zero(key, a_ - b_, scale=scale or 1.0, approx=approx)
 
     def valid(self, key, c, kinds=('default', 'nlsat')):
         """Obligation: condition c holds for all values on this path."""
@@ -629,9 +634,9 @@ def main(prop, module, build_configs, meta):
     if not os.environ.get('VERIF_NO_CVC5'):
         small = [(t_, v_) for t_, v_ in smt2s if len(t_) < 30000]
         xc['skipped_too_large'] = len(smt2s) - len(small)
-        todo = small[:meta.get('cvc5_sample', 12)]
+        todo = small[:meta.get('cvc5_sample', 8)]
         if todo:
-            r5s = _cvc5_batch([t_ for t_, _ in todo], 5000, 60)
+            r5s = _cvc5_batch([t_ for t_, _ in todo], 3000, 20)
             for (text, verdict), r5 in zip(todo, r5s):
                 xc['checked'] += 1
                 if r5 not in ('sat', 'unsat'):
@@ -661,6 +666,12 @@ def main(prop, module, build_configs, meta):
              n_canary, n_trivial, n_concrete, len(inconclusive), len(violations), len(known_hits),
              stats_tot.get('paths', 0), solver_time, wall))
 
+    slowest = sorted(((round(results[c['name']].get('wall', 0.0), 1), c['name'], results[c['name']]['status']) for c in cfgs), reverse=True)[:8]
+    if os.environ.get('VERIF_VERBOSE'):
+        for w_, n_, st_ in slowest:
+            print('  slow: %7.1fs %s %s' % (w_, st_, n_))
+        for ic in inconclusive[:20]:
+            print('  inconclusive: %s' % ic)
     if not a.no_evidence:
         ev = dict(
             property_id=prop, tier=tier, seed=seed, level='other', wall_s=round(wall, 2), violations=len(violations),
@@ -677,7 +688,7 @@ def main(prop, module, build_configs, meta):
                 evaluations=n_obl, distinct_nontrivial=len(distinct),
                 rule='one evaluation = one solver obligation; distinct = distinct (configuration, obligation key) pairs whose term is not a constant',
                 configurations=len(cfgs), configuration_status=statuses, configuration_names=names[:400],
-                inconclusive_list=inconclusive[:60],
+                inconclusive_list=inconclusive[:60], slowest_configurations=slowest,
                 functions_encoded=sorted(functions),
                 bounds=meta.get('bounds', {}), outside_claim=meta.get('outside', []),
                 symbolic_quantities=meta.get('symbolic', ''),
